@@ -85,7 +85,8 @@ def gen_read(r, gene, idx, force_eligible=False):
                 b = gene[p + i]
                 if b == "N":
                     b = r.choice("ACGT")
-                if r.random() < (0.12 if op != "=" else 0.0):
+                # (an `=` run too: it is a match against the ALIGNER's reference, aldy compares with its own gene sequence)
+                if r.random() < (0.12 if op != "=" else 0.06):
                     b = r.choice([c for c in "ACGT" if c != b])
                 seq.append(b)
             p += n
